@@ -111,7 +111,7 @@ def cmd_verify(i, suite=False):
              'demo_patched_tail': out1[-300:], 'ran': 'cd <scratch worktree of /repo HEAD>; python _seed/demo.py (clean: exit %d); '
              'git apply patch.diff; python _seed/demo.py (patched: exit %d)' % (rc0, rc1)}
         if suite:
-            cmd = ('unshare -n %s -m pytest -q -p no:cacheprovider --timeout=900 %s tests'
+            cmd = ("unshare -n sh -c 'ip link set lo up; %s -m pytest -q -p no:cacheprovider --timeout=900 %s tests'"
                    % (PY, ' '.join('--deselect ' + x for x in DESELECT)))
             t0 = time.time()
             rcs, outs = sh(cmd, cwd=d, timeout=3000)
